@@ -18,6 +18,7 @@ func init() {
 			bu := inFiles(p, btcd+"/btcutil/v2", "block.go", "tx.go")
 			ruleAllocBounds(p, r, func(fn *ssa.Function) bool { return wire(fn) || bu(fn) }, "wire+btcutil")
 			r.need("alloc-bound", 30)
+			ruleCursorAdvance(p, r, func(fn *ssa.Function) bool { return wire(fn) || bu(fn) })
 			ruleMessageRegistry(p, r)
 			ruleVersionGates(p, r, wirePkg)
 			ruleCodecPairs(p, r, wirePkg, [][2]string{{"BtcEncode", "BtcDecode"}, {"Serialize", "Deserialize"}, {"btcEncode", "btcDecode"}})
